@@ -86,6 +86,32 @@ def _span(start, end):
     return {"parts": [[start, end]], "strand": 1}
 
 
+def coordinate_tie(rng):
+    """ four protoclusters on a line or ring of 30: two sharing a defining gene (a hybrid), a third with exactly the coordinates
+        of that hybrid but its core outside the hybrid's core span (not a member), and a fourth reaching beyond """
+    from .c07 import rotate_loc  # pylint: disable=import-outside-toplevel
+    start = rng.randrange(2, 6)
+    end = start + rng.randrange(11, 14)
+    protos = [{"core": _span(start + 2, start + 4), "extent": _span(start, start + rng.randrange(7, 10)), "product": "p1"},
+              {"core": _span(start + 3, start + 6), "extent": _span(start + 1, end), "product": "p2"}]
+    left = rng.random() < 0.5
+    tie_core = _span(start, start + 1) if left else _span(end - 2, end - 1)
+    protos.append({"core": tie_core, "extent": _span(start, end), "product": "p3"})
+    far = rng.randrange(end + 1, end + 3)
+    protos.append({"core": _span(far, far + 1), "extent": _span(end - rng.randrange(1, 3), far + 3), "product": "p4"})
+    genes = [{"loc": _span(start + 3, start + 4), "core_for": ["p1", "p2"]},
+             {"loc": dict(tie_core), "core_for": ["p3"]},
+             {"loc": _span(far, far + 1), "core_for": ["p4"]}]
+    circ = rng.random() < 0.5
+    if circ:
+        shift = rng.randrange(0, 30)
+        for proto in protos:
+            proto["core"], proto["extent"] = rotate_loc(proto["core"], shift, 30), rotate_loc(proto["extent"], shift, 30)
+        for gene in genes:
+            gene["loc"] = rotate_loc(gene["loc"], shift, 30)
+    return {"L": 30, "circ": circ, "protos": protos, "genes": genes}
+
+
 def three_hybrids_and_a_single(rng):
     """ seven protoclusters on a line of 30: three pairs sharing a defining gene each (three candidates in location order),
         the middle or first of them with a long neighbourhood, and a protocluster that overlaps only that neighbourhood """
@@ -205,6 +231,8 @@ def run(ctx):
                 cases.append({"arr": arr, "sampled": True})
     for _ in range(300 if ctx.quick else 4000):
         cases.append({"arr": three_hybrids_and_a_single(rng), "sampled": True})
+    for _ in range(200 if ctx.quick else 3000):
+        cases.append({"arr": coordinate_tie(rng), "sampled": True})
     for idx, case in enumerate(cases):
         case["id"] = idx
         count = len(case["arr"]["protos"])
@@ -237,7 +265,8 @@ def run(ctx):
                 "and a ring of 12; the harness forms all pairs (thorough; sampled in quick) with and without a shared defining gene "
                 "and seeded triples/quadruples, plus arrangements of five (two pairs sharing a defining gene each and a fifth protocluster "
                 "whose core tends to overlap one pair's core) and of seven on a line of 30 (three such pairs, one with a long "
-                "neighbourhood that alone reaches a seventh protocluster), and runs candidate formation for every order (sampled orders for 4-5) of "
+                "neighbourhood that alone reaches a seventh protocluster) and of four with a coordinate tie (a protocluster with exactly "
+                "the coordinates of a hybrid it is not a member of), and runs candidate formation for every order (sampled orders for 4-5) of "
                 "adding the protoclusters; "
                 "non-trivial = at least one non-single candidate was formed")
     ctx.assumptions += ["defining genes are single-base genes at the first base of a core",
